@@ -112,7 +112,7 @@ PROPS = {
         "traced_too": True,
         'coq': 'Properties/C05.v',
         'streams': ['loop', 'loopadv'],
-        'level_text': 'C05_use_after_install proves over the interleaved trace of every history (all user behaviours, all send-failure patterns) that each change-program names a uid installed at its destination since that destination last said ready; C05_ready_installs_all / C05_create_installs_first give the exact install policy. C05_partial_program_set_never_runs (Runtime/StartFacts.v): when one offered program does not compile or its install message cannot be encoded, the run ends with an error before the receive loop and its only effect is closing the transport: a set is installed whole or the runtime does not run. C05_every_run_is_a_trace_with_install_before_use (Runtime/RunTrace.v): every run of the executable model is such a trace (or refused to start), so install-before-use holds of every run.',
+        'level_text': 'C05_use_after_install proves over the interleaved trace of every history (all user behaviours, all send-failure patterns) that each change-program names a uid installed at its destination since that destination last said ready; C05_ready_installs_all / C05_create_installs_first give the exact install policy. C05_partial_program_set_never_runs (Runtime/StartFacts.v): when one offered program does not compile or its install message cannot be encoded, the run ends with an error before the receive loop and its only effect is closing the transport: a set is installed whole or the runtime does not run. C05_every_run_is_a_trace_with_install_before_use (Runtime/RunTrace.v): every run of the executable model is such a trace (or refused to start), so install-before-use holds of every run. C05_nothing_else_installs: an install among the effects of a step comes from a ready or from a create of a not yet known address, and goes to the sender.',
         'level_note': 'Coq kernel; no axioms; hand-written model of run_inner (src/run.rs), Datapath/Report (src/lib.rs) and Backend::next, with user callbacks and send failures as arbitrary oracles; tied to the code by running RunBuilder::run inline over a scripted Ipc with recording algorithms on the same histories (model and implementation logs compared after sorting hash-ordered DROP/INSTALL batches and renaming uids through the install messages). Assumes handles are used only inside the three callbacks.',
         'rule': 'structured random histories over 3 addresses x 4 flow ids: ready / create (9 algorithm names incl. prefixes, extensions, empty, 63 bytes) / measurement for live and dead flows / close / unknown, 1-4 messages per datagram (occasionally 10-14, exceeding the 1024-byte buffer), restarts, re-creates, receive errors, stop requests; 0-3 additional algorithms with duplicate names and absent instances, 6 table programs incl. a duplicate name and an uncompilable one; callbacks issue set_program/update_field/get_field lists; non-trivial = at least one change-program sent',
         'assumptions': ["a flow's datapath handle is used only inside new_flow / on_report / close (not from Drop, not smuggled out)", 'program uids are canonicalised through the install messages; DROP and INSTALL batches are sorted before comparison (HashMap order)'],
@@ -122,7 +122,7 @@ PROPS = {
         "traced_too": True,
         'coq': 'Properties/C09.v',
         'streams': ['loop', 'loopadv', 'isolate', 'unixapi'],
-        'level_text': "C09_frame: a message from address a leaves every binding (b, s), b<>a, untouched; C09_restart_discards_own_flows_only; C09_handle_origin (invariant over all histories) and C09_commands_go_to_origin: every handle command is sent to the creating address with the flow's id.",
+        'level_text': "C09_frame: a message from address a leaves every binding (b, s), b<>a, untouched; C09_restart_discards_own_flows_only; C09_handle_origin (invariant over all histories) and C09_commands_go_to_origin: every handle command is sent to the creating address with the flow's id. C09_every_reply_goes_to_the_sender (Runtime/OriginFacts.v): over the interleaved trace of every history from the initial state, everything transmitted while a message is handled (installs, change-program, update-fields, failed sends) is addressed to that message's sender.",
         'level_note': 'Coq kernel; no axioms; hand-written model of run_inner (src/run.rs), Datapath/Report (src/lib.rs) and Backend::next, with user callbacks and send failures as arbitrary oracles; tied to the code by running RunBuilder::run inline over a scripted Ipc with recording algorithms on the same histories (model and implementation logs compared after sorting hash-ordered DROP/INSTALL batches and renaming uids through the install messages). Assumes handles are used only inside the three callbacks.',
         'rule': 'isolate: the implementation alone on a history and on the same history restricted to one address (what that datapath sees must be the same; 1 500 / 30 000 pairs); loopadv additionally draws the addresses of a third of its histories from pairs of distinct 64-bit addresses that a digest-keyed table would confuse (equal low 32 bits of the standard hasher, equal modulo 2^32, equal modulo 2^8); structured random histories over 3 addresses x 4 flow ids: ready / create (9 algorithm names incl. prefixes, extensions, empty, 63 bytes) / measurement for live and dead flows / close / unknown, 1-4 messages per datagram (occasionally 10-14, exceeding the 1024-byte buffer), restarts, re-creates, receive errors, stop requests; 0-3 additional algorithms with duplicate names and absent instances, 6 table programs incl. a duplicate name and an uncompilable one; callbacks issue set_program/update_field/get_field lists; non-trivial = commands sent to at least two different addresses',
         'assumptions': ["a flow's datapath handle is used only inside new_flow / on_report / close (not from Drop, not smuggled out)", 'program uids are canonicalised through the install messages; DROP and INSTALL batches are sorted before comparison (HashMap order)'],
@@ -162,7 +162,7 @@ PROPS = {
         "traced_too": True,
         'coq': 'Properties/C16.v',
         'streams': ['loopadv', 'ignore', 'unixapi'],
-        'level_text': 'C16_run_never_panics: for every script of arbitrary datagrams, receive errors, stop requests, user behaviour and send-failure pattern the run returns Ok or Err (no panic, fuel suffices); C16_ignored_inert: ignored messages return the state unchanged.',
+        'level_text': 'C16_run_never_panics: for every script of arbitrary datagrams, receive errors, stop requests, user behaviour and send-failure pattern the run returns Ok or Err (no panic, fuel suffices); C16_ignored_inert: ignored messages return the state unchanged. C16_ignored_message_is_transparent (Runtime/IgnoreFacts.v): over whole histories, an ignored message inserted after any prefix (or removed) leaves the state reached and every effect emitted unchanged.',
         'level_note': 'Coq kernel; no axioms; hand-written model of run_inner (src/run.rs), Datapath/Report (src/lib.rs) and Backend::next, with user callbacks and send failures as arbitrary oracles; tied to the code by running RunBuilder::run inline over a scripted Ipc with recording algorithms on the same histories (model and implementation logs compared after sorting hash-ordered DROP/INSTALL batches and renaming uids through the install messages). Assumes handles are used only inside the three callbacks.',
         'rule': 'unixapi: the address the real unix transport reports for a sender is the address it is bound to, verbatim (relative and absolute); structured random histories over 3 addresses x 4 flow ids: ready / create (9 algorithm names incl. prefixes, extensions, empty, 63 bytes) / measurement for live and dead flows / close / unknown, 1-4 messages per datagram (occasionally 10-14, exceeding the 1024-byte buffer), restarts, re-creates, receive errors, stop requests; 0-3 additional algorithms with duplicate names and absent instances, 6 table programs incl. a duplicate name and an uncompilable one; callbacks issue set_program/update_field/get_field lists; adversarial datagrams (every type code 0..8, 200, 255, wide codes, truncated/oversized payloads, random bytes, >1024-byte datagrams) and one injected send failure at a random position in a third of the cases; non-trivial = history contains raw adversarial bytes or a failed send',
         'assumptions': ["the bundled channel transport's own behaviour on oversized datagrams is checked under C19"],
